@@ -17,7 +17,8 @@ use refnoise::{patterns, state::overheads, CipherAlg, DhAlg, HashAlg, Proto};
 use serde_json::json;
 use std::{collections::HashMap, sync::Arc};
 
-const CATS: [Cat; 3] = [Cat::RngNotFresh, Cat::EphemeralMismatch, Cat::Panic];
+// a panic is C10's business, not this property's
+const CATS: [Cat; 2] = [Cat::RngNotFresh, Cat::EphemeralMismatch];
 
 /// The invariant: (key, nonce) -> one (ad, plaintext). Identical re-encryptions are allowed
 /// (the property forbids two encryptions of *different* data).
